@@ -477,8 +477,49 @@ func C08Exhaustive() []C08Case {
 // ---------------------------------------------------------------------------------------------
 // random part
 
+// c08Node is a schema node of a generated base with the statement that defines it.
+type c08Node struct {
+	SchemaPath
+	n *Node
+}
+
+// c08Expand is expand (schema.go) keeping the defining statement of every node.
+func c08Expand(n *Node, cur []string, short []bool, parentKw string, depth int, out *[]c08Node) {
+	if depth > 8 {
+		return
+	}
+	for _, c := range n.Kids {
+		switch c.Kw {
+		case "container", "list", "leaf", "leaf-list", "choice", "case", "anydata", "anyxml", "rpc", "action", "notification", "input", "output":
+			name := c.Arg
+			if c.Kw == "input" || c.Kw == "output" {
+				name = c.Kw
+			}
+			p := append(append([]string{}, cur...), name)
+			s := append(append([]bool{}, short...), parentKw == "choice" && c.Kw != "case")
+			*out = append(*out, c08Node{SchemaPath{Names: p, Kw: c.Kw, ChoiceShorthand: s}, c})
+			c08Expand(c, p, s, c.Kw, depth+1, out)
+		case "uses":
+			if c.Uses != nil {
+				c08Expand(c.Uses, cur, short, parentKw, depth+1, out)
+			}
+		}
+	}
+}
+
+func (n *Node) kid(kw string) (string, bool) {
+	for _, c := range n.Kids {
+		if c.Kw == kw {
+			return c.Arg, true
+		}
+	}
+	return "", false
+}
+
 // C08Random builds a random base set (Generate without deviations and without deliberate faults)
-// and 1-2 deviating modules with 1-3 deviations each of 1-3 deviate statements.
+// and 1-2 deviating modules with 1-3 deviations each of 1-3 deviate statements.  Most statements
+// are made to fit what the base writes on the target (so that many sets apply cleanly); the
+// rest are left as drawn.
 func C08Random(r *rand.Rand) C08Case {
 	cfg := Default()
 	cfg.Deviations = false
@@ -491,6 +532,7 @@ func C08Random(r *rand.Rand) C08Case {
 	var imports [][2]string
 	type tgt struct {
 		arg, dump, kw string
+		n             *Node
 	}
 	var tgts []tgt
 	for _, m := range set.Mods {
@@ -498,7 +540,15 @@ func C08Random(r *rand.Rand) C08Case {
 			continue
 		}
 		imports = append(imports, [2]string{m.Name, "i" + m.Name})
-		for _, p := range m.Paths() {
+		var nodes []c08Node
+		c08Expand(m.Body, nil, nil, "module", 0, &nodes)
+		for _, s := range m.Includes {
+			c08Expand(s.Body, nil, nil, "module", 0, &nodes)
+			for _, s2 := range s.Includes {
+				c08Expand(s2.Body, nil, nil, "module", 0, &nodes)
+			}
+		}
+		for _, p := range nodes {
 			// the dump path: implicit cases double the step, as in the written path after FixChoice
 			var d strings.Builder
 			d.WriteString("/" + m.Name)
@@ -508,7 +558,7 @@ func C08Random(r *rand.Rand) C08Case {
 				}
 				d.WriteString("/" + n)
 			}
-			tgts = append(tgts, tgt{pathString(p, "i"+m.Name, true), d.String(), p.Kw})
+			tgts = append(tgts, tgt{pathString(p.SchemaPath, "i"+m.Name, true), d.String(), p.Kw, p.n})
 		}
 	}
 	sort.SliceStable(tgts, func(i, j int) bool { return tgts[i].dump < tgts[j].dump })
@@ -519,29 +569,30 @@ func C08Random(r *rand.Rand) C08Case {
 	}
 	c.DevMods = mods
 	c.IgnoreNS = g.chance(0.3)
+	// a small pool of targets, so that several deviations meet on one node
+	var pool []tgt
+	for i := 0; i < 3 && len(tgts) > 0; i++ {
+		pool = append(pool, tgts[r.Intn(len(tgts))])
+	}
 	for _, m := range mods {
 		nd := 1 + r.Intn(3)
 		for i := 0; i < nd; i++ {
 			var d Deviation
 			d.Module = m
 			switch {
-			case len(tgts) == 0 || g.chance(0.04):
+			case len(tgts) == 0 || g.chance(0.03):
 				d.Arg, d.Missing = "/"+imports[0][1]+":nosuch", true
+				d.Stmts = []DevStmt{NewDevStmt(g.pick([]string{"add", "not-supported", "delete"}))}
 			default:
-				// a small pool of targets, so that several deviations meet on one node
 				t := tgts[r.Intn(len(tgts))]
-				if len(tgts) > 3 && g.chance(0.5) {
-					t = tgts[r.Intn(3)]
+				if g.chance(0.5) {
+					t = pool[r.Intn(len(pool))]
 				}
 				d.Arg, d.Target = t.arg, t.dump
 				ns := 1 + r.Intn(3)
 				for j := 0; j < ns; j++ {
-					d.Stmts = append(d.Stmts, g.c08Stmt(t.kw))
+					d.Stmts = append(d.Stmts, g.c08Stmt(t.kw, t.n))
 				}
-			}
-			if d.Missing {
-				s := NewDevStmt(g.pick([]string{"add", "not-supported", "delete"}))
-				d.Stmts = []DevStmt{s}
 			}
 			c.Devs = append(c.Devs, d)
 		}
@@ -553,20 +604,21 @@ func C08Random(r *rand.Rand) C08Case {
 	return c
 }
 
-func (g *genr) c08Stmt(kw string) DevStmt {
-	kind := g.pick([]string{"add", "replace", "delete", "add", "replace", "delete", "not-supported"})
-	if g.chance(0.02) {
+func (g *genr) c08Stmt(kw string, n *Node) DevStmt {
+	kind := g.pick([]string{"add", "replace", "delete", "add", "replace", "delete", "add", "replace", "delete", "not-supported"})
+	if g.chance(0.015) {
 		kind = "bogus"
 	}
 	s := NewDevStmt(kind)
 	if kind == "not-supported" {
 		return s
 	}
+	fit := g.chance(0.8) // make the statement fit what the base writes on the target
 	np := 1 + g.r.Intn(3)
 	for j := 0; j < np; j++ {
 		var p string
 		switch {
-		case g.chance(0.12):
+		case g.chance(0.08):
 			p = g.pick(c08Props)
 		case kw == "list":
 			p = g.pick([]string{"min-elements", "max-elements", "config"})
@@ -581,20 +633,60 @@ func (g *genr) c08Stmt(kw string) DevStmt {
 		default:
 			p = g.pick([]string{"config", "config", "units"})
 		}
+		var v string
 		switch p {
 		case "config", "mandatory":
-			s.Set(p, g.pick([]string{"true", "false"}))
+			v = g.pick([]string{"true", "false"})
 		case "default":
-			s.Set(p, g.pick([]string{"d1", "d2", "a", "b"}))
+			v = g.pick([]string{"d1", "d2", "a", "b"})
 		case "min-elements":
-			s.Set(p, g.pick([]string{"0", "1", "2"}))
+			v = g.pick([]string{"0", "1", "2"})
 		case "max-elements":
-			s.Set(p, g.pick([]string{"unbounded", "3", "10"}))
+			v = g.pick([]string{"unbounded", "3", "10"})
 		case "units":
-			s.Set(p, g.pick([]string{"u1", "u2"}))
+			v = g.pick([]string{"u1", "u2"})
 		case "type":
-			s.Set(p, g.pick(leafTypes))
+			v = g.pick(leafTypes)
 		}
+		if fit && j == 0 && p != "units" && p != "type" {
+			// the first property decides the kind: delete what is there (with its value), add what is not
+			cur, present := n.kid(p)
+			if p == "min-elements" && cur == "0" || p == "max-elements" && cur == "unbounded" {
+				present = false
+			}
+			switch {
+			case present && kind == "add" && !(p == "default" && kw == "leaf-list"):
+				kind = g.pick([]string{"replace", "delete"})
+			case !present && kind != "add":
+				kind = "add"
+			}
+			if present && kind == "delete" {
+				v = cur
+			}
+			if kind == "delete" && p == "default" && kw == "leaf-list" {
+				kind = "replace" // deleting a leaf-list default is refused by the library
+			}
+			s.Kind = kind
+		} else if fit && j > 0 {
+			// further properties only when they fit the kind already chosen
+			cur, present := n.kid(p)
+			if p == "units" || p == "type" {
+				present = p == "type" && (kw == "leaf" || kw == "leaf-list")
+				if kind == "delete" {
+					continue
+				}
+			}
+			if (kind == "add") == present && !(p == "default" && kw == "leaf-list" && kind == "add") {
+				continue
+			}
+			if kind == "delete" {
+				if p == "default" && kw == "leaf-list" {
+					continue
+				}
+				v = cur
+			}
+		}
+		s.Set(p, v)
 	}
 	return s
 }
